@@ -42,6 +42,48 @@ type c11Case struct {
 	// afterwards), so that Stop finishes gracefully, before its forced close, with the StopJunk frames having met a
 	// muxer in the stopping state. 0: the peer's answers are lost for good (Stop ends through its forced close).
 	ReleaseMs int `json:"release,omitempty"`
+	// Unread: "the application does not read". Before the drawn frames the peer opens these tubes; the application
+	// accepts them and then neither reads nor closes them (a tube that was accepted but is not being read yet, a proxy
+	// loop blocked on its other side). The peer fills each up to the bound the implementation has for unread input -
+	// the receive queue of an unreliable tube (maxBufferedPackets messages), the reassembly window of a reliable tube
+	// (maxWindowSize out-of-order frames behind a missing one), or an in-order backlog in its unbounded buffer - and
+	// only then the drawn frames follow, about half of them aimed at these tubes (the generator writes their tube id
+	// and reliability bit into the frames, every other field stays as drawn).
+	Unread []c11Unread `json:"unread,omitempty"`
+}
+
+type c11Unread struct {
+	Rel   bool `json:"rel"`
+	Tube  int  `json:"tube"`
+	Delta int  `json:"delta"` // number of fill frames relative to the bound (bound+Delta)
+	N     int  `json:"n"`     // payload bytes of each fill frame
+	Hole  bool `json:"hole"`  // reliable only: frame 1 is left out, so everything that follows waits in the reassembly window
+}
+
+// c11HeldType is the tube type the application of the scenario holds without reading (it dispatches on the tube type,
+// as hop's session loop does).
+const c11HeldType = 0xE7
+
+// c11FillFrames builds the frames with which the peer opens an unread tube and fills it up to its bound.
+func c11FillFrames(u c11Unread) []c11Frame {
+	rel := 0
+	if u.Rel {
+		rel = 1 << RELIdx
+	}
+	out := []c11Frame{{Tube: u.Tube, Flags: rel | 1<<REQIdx, Short: -1, TType: c11HeldType}}
+	bound := maxBufferedPackets
+	first := 0
+	if u.Rel {
+		bound, first = maxWindowSize, 1
+		if u.Hole {
+			first = 2
+		}
+	}
+	n := bound + u.Delta
+	for i := 0; i < n; i++ {
+		out = append(out, c11Frame{Tube: u.Tube, Flags: rel, Payload: u.N, No: uint32(first + i), Short: -1})
+	}
+	return out
 }
 
 var c11LenFields = []int{-1, -2, -3, 0, 0x7FFF, 0x8000, 0xFFF3, 0xFFF4, 0xFFFF, 1}
@@ -135,6 +177,9 @@ func c11Scenario(c c11Case, v *vlib.Verdict) {
 					continue
 				}
 			}
+			if tb.Type() == c11HeldType {
+				continue // accepted, kept, not read (yet): whatever the peer sends stays buffered in the tube
+			}
 			go tb.Close()
 		}
 	}()
@@ -187,6 +232,21 @@ func c11Scenario(c c11Case, v *vlib.Verdict) {
 	}
 	if c.CtlWarm > 0 && !exchange(c.CtlWarm, "before-junk") {
 		return
+	}
+	// the tubes the application does not read: opened and filled up to their bound before the drawn frames
+	for _, u := range c.Unread {
+		for _, f := range c11FillFrames(u) {
+			if c11TargetsControl(f, ctlID) {
+				f.Tube = int(ctlID) + 2
+			}
+			p.Net.B.Inject(c11Bytes(f, ctlID))
+		}
+		time.Sleep(time.Millisecond) // the muxer has taken everything off the (bounded) fake network before more follows
+		if u.Rel {
+			v.Label("unread-reliable-tube-filled")
+		} else {
+			v.Label("unread-unreliable-tube-filled")
+		}
 	}
 	inconsistent := 0
 	for i, f := range c.Frames {
@@ -376,7 +436,7 @@ func c11Bucket(n int) int {
 }
 
 func c11FrameGen() *rapid.Generator[c11Frame] {
-	nums := []uint32{0, 1, 2, 3, 10, 1000, 1 << 31, 1<<31 + 1, 1<<32 - 1, 1<<32 - 2}
+	nums := []uint32{0, 1, 2, 3, 10, 1000, 1001, 1002, 1 << 31, 1<<31 + 1, 1<<32 - 1, 1<<32 - 2}
 	return rapid.Custom(func(t *rapid.T) c11Frame {
 		f := c11Frame{Short: -1}
 		f.Tube = rapid.OneOf(rapid.IntRange(0, 255), rapid.SampledFrom([]int{0, 1, 2, 3, 254, 255})).Draw(t, "tube")
@@ -414,6 +474,38 @@ func c11Gen(t *rapid.T) c11Case {
 		}), 1, 12).Draw(t, "stopjunk")
 		// six in ten of these: the peer answers late but in time (Stop ends gracefully, before the 1 s forced close)
 		c.ReleaseMs = rapid.SampledFrom([]int{0, 0, 0, 0, 60, 150, 300, 500, 700, 900}).Draw(t, "release")
+	}
+	// one case in four: the application leaves 1-2 tubes unread and the peer fills them to their bound first; the drawn
+	// frames (also those injected while stopping) are then aimed at these tubes with probability 1/2, all other
+	// fields - flags, length field, payload, numbers - as drawn
+	if rapid.IntRange(0, 3).Draw(t, "withUnread") == 0 {
+		c.Unread = rapid.SliceOfN(rapid.Custom(func(t *rapid.T) c11Unread {
+			u := c11Unread{Rel: rapid.IntRange(0, 2).Draw(t, "urel") == 0, Tube: rapid.IntRange(2, 250).Draw(t, "utube")}
+			u.Delta = rapid.SampledFrom([]int{-1, 0, 0, 1, 30}).Draw(t, "udelta")
+			u.N = rapid.SampledFrom([]int{0, 1, 1, 40, 1200}).Draw(t, "un")
+			if u.Rel {
+				u.Hole = rapid.Bool().Draw(t, "uhole")
+				if u.N == 0 {
+					u.N = 1 // a reliable frame without payload is an acknowledgement, not data
+				}
+			}
+			return u
+		}), 1, 2).Draw(t, "unread")
+		aim := func(fs []c11Frame) {
+			for i := range fs {
+				if !rapid.Bool().Draw(t, "aimed") {
+					continue
+				}
+				u := c.Unread[rapid.IntRange(0, len(c.Unread)-1).Draw(t, "at")]
+				fs[i].Tube = u.Tube
+				fs[i].Flags &^= 1 << RELIdx
+				if u.Rel {
+					fs[i].Flags |= 1 << RELIdx
+				}
+			}
+		}
+		aim(c.Frames)
+		aim(c.StopJunk)
 	}
 	// process-killing known findings are excluded by construction while they are open
 	if vlib.KnownOpen("panic:tubes.fromBytes:slice-bounds") {
